@@ -110,7 +110,12 @@ def check_obsrange(ctx):
     site = "verif.data.Data.get_scores"
     m = prog.module("verif.data")
     ev = trace.trace(prog, site)
-    st = [e for e in trace.stores(ev, "temp") if len(e["indices"]) == 1]
+    # whatever the masked array is called, and whether the two bounds are two stores or one store with `below | above`
+    st0 = [e for e in trace.stores(ev) if len(e["indices"]) == 1 and isinstance(e["indices"][0], Rat) and "$self._obs_range" in e["indices"][0].key()]
+    st = []
+    for e in st0:
+        for lf in q.leaves(e["indices"][0], "or"):
+            st.append(dict(e, indices=[lf]))
     lows = highs = 0
     for e in st:
         ix = e["indices"][0]
